@@ -73,6 +73,9 @@ def build_cases(ctx, baselines):
                             continue
                         for kind in kinds:
                             cases.append(dict(base, faults=[(k, kind)], classes0=n))
+                        if n[k] == uc.CHECKSUM_REPLY[prov] and (full or pi in (0, 3)):
+                            # the checksum-carrying reply arrives well-formed but without the checksum
+                            cases.append(dict(base, faults=[(k, 'nofield')], classes0=n, must=True))
                     if full:
                         cases.append(dict(base, faults=[('token', 'status')], classes0=n))
                         # two faults: the second hits the clean-up request that follows the first
@@ -104,7 +107,7 @@ def check(ctx):
         cases = [c for c in build_cases(ctx, baselines) if c['faults']]
         if ctx.tier == 'quick':
             ctx.rng.shuffle(cases)
-            cases = cases[:260]
+            cases = [c for c in cases if c.get('must')] + [c for c in cases if not c.get('must')][:260]
         results = run_cases(ctx, stage, cases)
         all_cases += cases
         all_results += results
